@@ -4,34 +4,33 @@
 use super::super::*;
 use crate::lex::verif_kani::common::is_suffix_at;
 
-/// Every string of K items over {#, ", a, é}: no panic; if accepted with h
-/// hashes: input == #^h " body " #^h rest, body does not contain " #^h.
-fn raw_total<const K: usize>() {
+/// A text of constant length: K symbolic characters drawn from `alphabet` (ASCII), with
+/// one `é` (2 bytes) inserted in front of character number P when P <= K (P > K: no
+/// `é`).  The byte length (K or K + 2) is a constant of the obligation; with a symbolic
+/// length (`é` anywhere) the K = 4 raw-string obligation did not finish in 400 s.
+fn text<const K: usize, const P: usize>(alphabet: [u8; 3]) -> ([u8; 12], usize) {
     let mut buf = [0u8; 12];
     let mut n = 0;
     let mut i = 0;
-    while i < K {
-        match kani::any::<u8>() % 4 {
-            0 => {
-                buf[n] = b'#';
-                n += 1;
-            }
-            1 => {
-                buf[n] = b'"';
-                n += 1;
-            }
-            2 => {
-                buf[n] = b'a';
-                n += 1;
-            }
-            _ => {
-                buf[n] = 0xc3;
-                buf[n + 1] = 0xa9;
-                n += 2;
-            }
+    while i <= K {
+        if i == P {
+            buf[n] = 0xc3;
+            buf[n + 1] = 0xa9;
+            n += 2;
+        }
+        if i < K {
+            buf[n] = alphabet[(kani::any::<u8>() % 3) as usize];
+            n += 1;
         }
         i += 1;
     }
+    (buf, n)
+}
+
+/// Every such text over {#, ", a} (+ é): no panic; if accepted with h
+/// hashes: input == #^h " body " #^h rest.
+fn raw_total<const K: usize, const P: usize>() {
+    let (buf, n) = text::<K, P>([b'#', b'"', b'a']);
     let input = unsafe { std::str::from_utf8_unchecked(&buf[..n]) };
     match lex_raw_string_as_str(input) {
         Ok(((body, h), rest)) => {
@@ -51,23 +50,159 @@ fn raw_total<const K: usize>() {
                 i += 1;
             }
             assert!(is_suffix_at(input, rest, end + 1 + h), "exactly the literal is consumed");
-            kani::cover!(h == 1 && body.len() > 0);
-            kani::cover!(body.len() == 2 && buf[h + 1] == 0xc3, "multi-byte body");
+            // the body holds no closing sequence (quote followed by h hashes)
+            let mut j = 0;
+            while j < body.len() {
+                if buf[h + 1 + j] == b'"' {
+                    let mut hashes = 0;
+                    while hashes < h && h + 2 + j + hashes < end && buf[h + 2 + j + hashes] == b'#' {
+                        hashes += 1;
+                    }
+                    assert!(hashes < h, "the literal ends at the FIRST closing sequence");
+                }
+                j += 1;
+            }
+            kani::cover!(h == 1 || K < 4, "one hash (needs 4 characters)");
+            kani::cover!(h == 0 && rest.len() > 0, "something left after the literal");
         }
-        Err(e) => {
-            std::mem::forget(e);
+        Err((kind, at)) => {
+            let lo = input.as_ptr() as usize;
+            let a = at.as_ptr() as usize;
+            assert!(lo <= a && a + at.len() <= lo + n, "the error span lies inside the input");
+            assert!(input.is_char_boundary(a - lo), "the error span starts on a character boundary");
+            kani::cover!(matches!(&kind, LexErrorKind::MissingEndingQuote), "no closing sequence");
+            std::mem::forget(kind);
         }
     }
 }
 
-#[kani::proof]
-#[kani::unwind(10)]
-fn lex_raw_string__total_and_partition_k4() {
-    raw_total::<4>()
+macro_rules! raw_case {
+    ($name:ident, $k:literal, $p:literal) => {
+        #[kani::proof]
+        #[kani::unwind(10)]
+        fn $name() {
+            raw_total::<$k, $p>()
+        }
+    };
 }
 
-#[kani::proof]
-#[kani::unwind(12)]
-fn lex_raw_string__total_and_partition_k5() {
-    raw_total::<5>()
+raw_case!(lex_raw_string__total_and_partition_ascii3, 3, 9);
+raw_case!(lex_raw_string__total_and_partition_ascii4, 4, 9);
+raw_case!(lex_raw_string__total_and_partition_ascii5, 5, 9);
+// one `é` at each position of a 3-character text
+raw_case!(lex_raw_string__total_and_partition_e_at0, 3, 0);
+raw_case!(lex_raw_string__total_and_partition_e_at1, 3, 1);
+raw_case!(lex_raw_string__total_and_partition_e_at2, 3, 2);
+raw_case!(lex_raw_string__total_and_partition_e_at3, 3, 3);
+
+// ---------------------------------------------------------------------------
+// quoted strings: error spans around multi-byte characters
+
+/// `span` is the sub-slice [at, at+len) of `input` and both ends are character
+/// boundaries of `input`.
+fn is_char_aligned_subslice(input: &str, span: &str, at: usize, len: usize) -> bool {
+    at + len <= input.len()
+        && std::ptr::eq(span.as_ptr(), unsafe { input.as_ptr().add(at) })
+        && span.len() == len
+        && input.is_char_boundary(at)
+        && input.is_char_boundary(at + len)
 }
+
+/// Regression obligation: an invalid escape whose escaped character is multi-byte
+/// (`"a\éb"`, text after the opening quote).  The lexer must not panic and the error
+/// span must be exactly that character (a slice on character boundaries), so that
+/// `ParseError::new` and `Display` can slice the line by it.
+#[kani::proof]
+#[kani::unwind(8)]
+#[kani::stub(std::mem::drop, crate::ast::field_expr::verif_kani::common::mem_drop__leak)]
+fn lex_quoted_string__invalid_escape_of_multibyte_char() {
+    let input = "a\\\u{e9}b\"";
+    match lex_quoted_string_as_vec(input) {
+        Ok(x) => {
+            std::mem::forget(x);
+            assert!(false, "\\é is not an escape");
+        }
+        Err((kind, span)) => {
+            assert!(matches!(&kind, LexErrorKind::InvalidCharacterEscape));
+            assert!(is_char_aligned_subslice(input, span, 2, 2), "the error designates the escaped character, whole");
+            kani::cover!(true, "error arm");
+            std::mem::forget(kind);
+        }
+    }
+}
+
+/// Same with a 3-byte and a 4-byte escaped character.
+#[kani::proof]
+#[kani::unwind(8)]
+#[kani::stub(std::mem::drop, crate::ast::field_expr::verif_kani::common::mem_drop__leak)]
+fn lex_quoted_string__invalid_escape_of_3_and_4_byte_chars() {
+    let input = "\\\u{20ac}\"";
+    match lex_quoted_string_as_vec(input) {
+        Ok(x) => {
+            std::mem::forget(x);
+            assert!(false);
+        }
+        Err((kind, span)) => {
+            assert!(matches!(&kind, LexErrorKind::InvalidCharacterEscape));
+            assert!(is_char_aligned_subslice(input, span, 1, 3));
+            std::mem::forget(kind);
+        }
+    }
+    let input = "\\\u{1f600}\"";
+    match lex_quoted_string_as_vec(input) {
+        Ok(x) => {
+            std::mem::forget(x);
+            assert!(false);
+        }
+        Err((kind, span)) => {
+            assert!(matches!(&kind, LexErrorKind::InvalidCharacterEscape));
+            assert!(is_char_aligned_subslice(input, span, 1, 4));
+            kani::cover!(true, "error arm");
+            std::mem::forget(kind);
+        }
+    }
+}
+
+/// Every text (see `text`) over {\\, ", a} (+ é): no panic; what is accepted is a prefix
+/// of the input ending after a quote; every error span is a sub-slice of the input on
+/// character boundaries.
+fn quoted_total<const K: usize, const P: usize>() {
+    let (buf, n) = text::<K, P>([b'\\', b'"', b'a']);
+    let input = unsafe { std::str::from_utf8_unchecked(&buf[..n]) };
+    match lex_quoted_string_as_vec(input) {
+        Ok((vec, rest)) => {
+            let at = n - rest.len();
+            assert!(is_suffix_at(input, rest, at) && at >= 1 && buf[at - 1] == b'"', "consumed up to and including a quote");
+            kani::cover!(true, "accepted");
+            std::mem::forget(vec);
+        }
+        Err((kind, span)) => {
+            let lo = input.as_ptr() as usize;
+            let a = span.as_ptr() as usize;
+            assert!(lo <= a && a + span.len() <= lo + n, "the error span lies inside the input");
+            let at = a - lo;
+            assert!(at == n || buf[at] & 0xc0 != 0x80, "the span starts on a character boundary");
+            let end = at + span.len();
+            assert!(end == n || buf[end] & 0xc0 != 0x80, "the span ends on a character boundary");
+            kani::cover!(matches!(&kind, LexErrorKind::MissingEndingQuote), "no closing quote");
+            std::mem::forget(kind);
+        }
+    }
+}
+
+macro_rules! quoted_case {
+    ($name:ident, $k:literal, $p:literal) => {
+        #[kani::proof]
+        #[kani::unwind(10)]
+        #[kani::stub(std::mem::drop, crate::ast::field_expr::verif_kani::common::mem_drop__leak)]
+        fn $name() {
+            quoted_total::<$k, $p>()
+        }
+    };
+}
+
+quoted_case!(lex_quoted_string__total_and_spans_ascii2, 2, 9);
+quoted_case!(lex_quoted_string__total_and_spans_ascii3, 3, 9);
+quoted_case!(lex_quoted_string__total_and_spans_e_at0, 2, 0);
+quoted_case!(lex_quoted_string__total_and_spans_e_at1, 2, 1);
+quoted_case!(lex_quoted_string__total_and_spans_e_at2, 2, 2);
